@@ -14,7 +14,7 @@ ConvVerdict(segs, x, y, tag) ==      \* y is the conversion of x
   ELSE "ok"
 
 Same(x, y) == /\ x.strand = y.strand /\ x.path = y.path /\ x.plen = y.plen
-              /\ x.ps = y.ps /\ x.pe = y.pe /\ x.cigar = y.cigar
+              /\ x.ps = y.ps /\ x.pe = y.pe /\ x.cigar = y.cigar /\ x.cgpos = y.cgpos
 Untouched(x, y) == x.keep = y.keep /\ x.opt = y.opt
 
 FirstBad(c, F(_, _), n) ==
